@@ -2,6 +2,8 @@
 which concrete representatives stand for the abstract alphabet symbols and rotates enumeration order."""
 import datetime
 import itertools
+
+from .codec import SubInt, SubFloat
 from decimal import Decimal
 
 _INT_POOLS = [(1, 2), (3, 7), (2, 10), (5, 6)]
@@ -47,7 +49,9 @@ def V36(seed=0):
             '', s1, s2,
             d1, d2, dt1, dt2, t1, t2,
             (), (1,), (2,), (1, s1), (None,), (1, None),
-            [1], [1, s1], ((1,),), (1, (2,)), (s1, 1), (b1,)]
+            [1], [1, s1], ((1,),), (1, (2,)), (s1, 1), (b1,),
+            # instances of SUBCLASSES of the numeric types are numbers too (and == / hash-equal to the plain value)
+            SubInt(1), SubFloat(0.5)]
 
 
 def rotate(seq, seed):
